@@ -1,9 +1,24 @@
 """C15 -- TIMEX resolution: harnesses over the real datatypes_timex_expression code."""
 import sys
-from datetime import datetime, timedelta
 
 from harness.common import *  # noqa
 from harness import marks
+
+ENGINE = os.environ.get('VERIF_ENGINE', 'native')
+if ENGINE == 'sx':
+    # symx: the timex modules get the symbolic calendar classes (lib/symdate.py)
+    import datatypes_timex_expression  # noqa: F401
+    from lib import symx, symdate
+    from datetime import date as _rdate, datetime as _rdatetime, timedelta as _rtd
+    symx.RESET_HOOKS.append(symdate.reset)
+    for _n in ('timex', 'timex_helpers', 'timex_range_resolver', 'timex_date_helpers', 'timex_resolver'):
+        _m = sys.modules['datatypes_timex_expression.' + _n]
+        for _a, _real, _sym in (('date', _rdate, symdate.sdatetime), ('datetime', _rdatetime, symdate.sdatetime), ('timedelta', _rtd, symdate.stimedelta)):
+            if getattr(_m, _a, None) is _real:
+                setattr(_m, _a, _sym)
+    datetime, timedelta = symdate.sdatetime, symdate.stimedelta
+else:
+    from datetime import datetime, timedelta
 from datatypes_timex_expression import Timex
 from datatypes_timex_expression.timex_resolver import TimexResolver
 from datatypes_timex_expression.timex_value import TimexValue
